@@ -57,7 +57,7 @@ pub struct Done;
 impl Done {
     fn drop_coroutine(co: CoroutineImpl) {
         #[cfg(may_verif)]
-        crate::verif::event("co.done", get_co_local(&co) as u64, 0);
+        crate::verif::event("co.done", verif_co_id(&co), 0);
         // assert!(co.is_done(), "unfinished coroutine detected");
         // just consume the coroutine
         // destroy the local storage
@@ -522,11 +522,27 @@ pub fn park_timeout(dur: Duration) {
     park_timeout_impl(Some(dur));
 }
 
+/// identity of a coroutine for the verification hooks: address of the handle's shared data
+#[cfg(may_verif)]
+pub(crate) fn verif_co_id(co: &CoroutineImpl) -> u64 {
+    let local = unsafe { &*get_co_local(co) };
+    Arc::as_ptr(&local.get_co().inner) as u64
+}
+
+/// identity of the current coroutine, 0 in thread context
+#[cfg(may_verif)]
+pub fn verif_current_id() -> u64 {
+    match get_co_local_data() {
+        Some(local) => Arc::as_ptr(&unsafe { local.as_ref() }.get_co().inner) as u64,
+        None => 0,
+    }
+}
+
 /// run the coroutine
 #[inline]
 pub(crate) fn run_coroutine(mut co: CoroutineImpl) {
     #[cfg(may_verif)]
-    let co_id = get_co_local(&co) as u64;
+    let co_id = verif_co_id(&co);
     #[cfg(may_verif)]
     crate::verif::event("co.resume", co_id, 0);
     match co.resume() {
